@@ -9,15 +9,21 @@
 
 use crate::runner::*;
 use crate::spec::*;
-use fpdec::{Decimal, DivRounded, MulRounded, Quantize, Round, RoundingMode};
+use fpdec::{CheckedDiv, Decimal, DivRounded, MulRounded, Quantize, Round, RoundingMode};
 use serde_json::{json, Value};
 use std::collections::HashSet;
 
 #[derive(Clone, Copy, PartialEq, Eq, Debug, Hash)]
 pub enum Step { Set(u8), Get, Op(u8) }
 
-pub const OP_NAMES: [&str; 11] = ["round", "div_rounded", "mul_rounded", "*", "/", "quantize", "format!({:.0})", "* (product beyond i128)", "/ (scaled dividend beyond i128)", "mul_rounded (product beyond i128)", "div_rounded (scaled dividend beyond i128)"];
-pub const N_KINDS: u8 = 11;
+pub const OP_NAMES: [&str; 30] = ["round", "div_rounded", "mul_rounded", "*", "/", "quantize", "format!({:.0})", "* (product beyond i128)", "/ (scaled dividend beyond i128)", "mul_rounded (product beyond i128)", "div_rounded (scaled dividend beyond i128)",
+    // the other operand forms and entry points that consult the thread's mode
+    "checked_round", "Decimal/i32", "i64/Decimal", "Decimal.div_rounded(i32)", "i32.div_rounded(Decimal)", "i32.div_rounded(i32)", "checked_div", "Decimal.checked_div(u8)", "i64.checked_div(Decimal)",
+    "Decimal/=Decimal", "Decimal/=i64", "Decimal*=Decimal", "&Decimal/&Decimal", "&Decimal*&Decimal", "Decimal/i128", "i128/Decimal", "format!({:>8.0})", "&Decimal.mul_rounded(&Decimal)", "&Decimal.div_rounded(&Decimal)"];
+pub const N_KINDS: u8 = 30;
+/// Kinds below this index are crossed with all 64 mode pairs in the interleaving families; the operand-form
+/// kinds above it with 8 mode pairs each (every mode once on either thread).
+pub const N_CORE_KINDS: u8 = 11;
 const BIG_K: i128 = 10_000_000_000_000_000_000_000; // 10^22
 
 /// Probe dividends in tenths: +-2.5, +-1.5, +-2.1, +-2.6, +-10.1, +-0.5, +-0.9
@@ -46,6 +52,25 @@ fn probe(k: u8) -> Vec<i128> {
         8 => to18(Decimal::new_raw(v.signum() * (10 * BIG_K + v.abs()), 0) / Decimal::new_raw(10i128.pow(19), 0)) - v.signum() * BIG_K,
         9 => Decimal::new_raw(v.signum() * (10 * BIG_K + v.abs()), 18).mul_rounded(Decimal::new_raw(10i128.pow(17), 18), 18).coefficient() - v.signum() * BIG_K,
         10 => Decimal::new_raw(v.signum() * (10 * BIG_K + v.abs()), 0).div_rounded(Decimal::new_raw(10i128.pow(19), 0), 18).coefficient() - v.signum() * BIG_K,
+        11 => Decimal::new_raw(v, 1).checked_round(0).unwrap().coefficient(),
+        12 => to18(Decimal::new_raw(v, 18) / 10_i32),
+        13 => to18((v as i64) / Decimal::new_raw(10i128.pow(19), 0)),
+        14 => Decimal::new_raw(v, 0).div_rounded(10_i32, 0).coefficient(),
+        15 => (v as i32).div_rounded(Decimal::new_raw(10, 0), 0).coefficient(),
+        16 => (v as i32).div_rounded(10_i32, 0).coefficient(),
+        17 => to18(CheckedDiv::checked_div(Decimal::new_raw(v, 18), Decimal::new_raw(10, 0)).unwrap()),
+        18 => to18(CheckedDiv::checked_div(Decimal::new_raw(v, 18), 10_u8).unwrap()),
+        19 => to18(CheckedDiv::checked_div(v as i64, Decimal::new_raw(10i128.pow(19), 0)).unwrap()),
+        20 => { let mut z = Decimal::new_raw(v, 18); z /= Decimal::new_raw(10, 0); to18(z) }
+        21 => { let mut z = Decimal::new_raw(v, 18); z /= 10_i64; to18(z) }
+        22 => { let mut z = Decimal::new_raw(v, 18); z *= Decimal::new_raw(1, 1); z.coefficient() }
+        23 => to18(&Decimal::new_raw(v, 18) / &Decimal::new_raw(10, 0)),
+        24 => (&Decimal::new_raw(v, 18) * &Decimal::new_raw(1, 1)).coefficient(),
+        25 => to18(Decimal::new_raw(v, 18) / 10_i128),
+        26 => to18((v as i128) / Decimal::new_raw(10i128.pow(19), 0)),
+        27 => format!("{:>8.0}", Decimal::new_raw(v, 1)).trim().parse::<i128>().unwrap(),
+        28 => (&Decimal::new_raw(v, 1)).mul_rounded(&Decimal::new_raw(1, 0), 0).coefficient(),
+        29 => (&Decimal::new_raw(v, 0)).div_rounded(&Decimal::new_raw(10, 0), 0).coefficient(),
         _ => unreachable!(),
     }).collect()
 }
@@ -369,7 +394,7 @@ pub fn run(tier: Tier) -> i32 {
     // the probe vector must identify the mode: all 8 signatures pairwise distinct, and under the
     // pristine single-thread semantics every operation kind reproduces the signature of the mode set
     for i in 0..8 { for j in 0..i { assert!(sigs[i] != sigs[j], "probe vector does not separate {} and {}", i, j); } }
-    // F0: one thread: every operation kind rounds with the mode set on its own thread (8 modes x 7 kinds)
+    // F0: one thread: every operation kind rounds with the mode set on its own thread (8 modes x all kinds)
     run.seq(|l| {
         let mut st = HashSet::new();
         for m in 0..8u8 { for k in 0..N_KINDS {
@@ -391,12 +416,12 @@ pub fn run(tier: Tier) -> i32 {
     // F1: two threads x three steps: 20 interleavings x 9 template pairs x 64 mode pairs x 7 op kinds
     let il2 = interleavings(&[3, 3]);
     let mut items: Vec<(u8, u8, u8)> = Vec::new();
-    for m1 in 0..8u8 { for m2 in 0..8u8 { for k in 0..N_KINDS { items.push((m1, m2, k)); } } }
+    for m1 in 0..8u8 { for m2 in 0..8u8 { for k in 0..N_KINDS { if k < N_CORE_KINDS || m2 == (3 * m1 + k) % 8 { items.push((m1, m2, k)); } } } }
     // one executor process per worker; each executor runs 2-3 threads at a time
     let w2 = (run.threads / 2).max(1);
     let w3 = (run.threads / 3).max(1);
     // quick: the four wide-path kinds run on half of the mode pairs
-    let items_f1: Vec<(u8, u8, u8)> = if th { items.clone() } else { items.iter().copied().filter(|&(a, b, k)| k < 7 || (a + b) % 2 == 1).collect() };
+    let items_f1: Vec<(u8, u8, u8)> = if th { items.clone() } else { items.iter().copied().filter(|&(a, b, k)| k < 7 || k >= N_CORE_KINDS || (a + b) % 2 == 1).collect() };
     run.par_for_n(w2, &items_f1, || {}, |&(m1, m2, k), l| {
         let mut st = HashSet::new();
         let (t1, t2) = (templates(m1, k), templates(m2, k));
@@ -411,7 +436,7 @@ pub fn run(tier: Tier) -> i32 {
         if l.class(1 << 8 | k as u64) { l.sample(1 << 8 | k as u64, json!({"scripts": [t1[0].iter().map(|x| show_step(*x)).collect::<Vec<_>>(), t2[1].iter().map(|x| show_step(*x)).collect::<Vec<_>>()], "schedule": il2[9], "meaning": "schedule = sequence of thread ids; each entry releases that thread's next API call"})); }
         all_states.lock().unwrap().extend(st.into_iter().map(|mut v| { v.insert(0, 1); v }));
     });
-    run.stage("F1 two threads x three steps", json!({"interleavings": il2.len(), "template_pairs": 9, "mode_pairs": 64, "op_kinds": 7}));
+    run.stage("F1 two threads x three steps", json!({"interleavings": il2.len(), "template_pairs": 9, "mode_pairs": "64 for the 11 core kinds, 8 for each of the 19 operand-form kinds", "op_kinds": N_KINDS}));
 
     // F2: three threads x two steps: 90 interleavings x 64 mode pairs (third thread never sets) x 7 kinds
     let il3 = interleavings(&[2, 2, 2]);
@@ -430,7 +455,7 @@ pub fn run(tier: Tier) -> i32 {
         if l.class(2 << 8 | k as u64) { l.sample(2 << 8 | k as u64, json!({"scripts": variants[0].iter().map(|s| s.iter().map(|x| show_step(*x)).collect::<Vec<_>>()).collect::<Vec<_>>(), "schedule": il3[40]})); }
         all_states.lock().unwrap().extend(st.into_iter().map(|mut v| { v.insert(0, 2); v }));
     });
-    run.stage("F2 three threads x two steps", json!({"interleavings": il3.len(), "script_variants": 2, "mode_pairs": 64, "op_kinds": 7}));
+    run.stage("F2 three threads x two steps", json!({"interleavings": il3.len(), "script_variants": 2, "mode_pairs": "64 core / 8 operand-form kinds", "op_kinds": N_KINDS}));
 
     // F3: lifecycle histories
     run.par_for(&items, || {}, |&(m1, m2, k), l| {
@@ -440,7 +465,7 @@ pub fn run(tier: Tier) -> i32 {
         l.class(3 << 8 | k as u64);
         all_states.lock().unwrap().extend(st.into_iter().map(|mut v| { v.insert(0, 3); v }));
     });
-    run.stage("F3 lifecycle histories", json!({"histories": "set-then-die-then-spawn, set-then-spawn-child (no inheritance), child set vs parent, double set", "mode_pairs": 64, "op_kinds": 7}));
+    run.stage("F3 lifecycle histories", json!({"histories": "set-then-die-then-spawn, set-then-spawn-child (no inheritance), child set vs parent, double set", "mode_pairs": "64 core / 8 operand-form kinds", "op_kinds": N_KINDS}));
 
     // F5: ALL scripts of up to three steps over the per-thread alphabet {Set(own mode), Set(RoundHalfEven), Op}
     // for both threads (27 x 27 script pairs x 20 interleavings): repeated and redundant set_default calls,
@@ -506,7 +531,7 @@ pub fn run(tier: Tier) -> i32 {
     finish(Finish {
         run: &run,
         level: "model_checking",
-        rule: "All interleavings (depth-first over program counters, no sampling, no reduction) of: F1 two threads x three steps (20 interleavings) x 9 script-template pairs {set-op-get, op-set-op, get-op-get}^2 x 64 mode pairs x 11 operation kinds (round, div_rounded, mul_rounded, *, /, quantize, Display with precision, and *, /, mul_rounded, div_rounded on operands whose intermediate exceeds 128 bits); F2 three threads x two steps (90 interleavings) x 2 script variants x 64 mode pairs x 7 kinds; F5 ALL script pairs of three steps over the per-thread alphabet {Set(own mode), Set(RoundHalfEven), Op} (729 pairs x 20 interleavings x own-mode pairs: repeated, redundant and reset set_default calls); F3 lifecycle histories (thread dies then another is spawned; parent with non-default mode spawns child; child sets, parent re-observes; double set) x 64 x 7; thorough: F4 three threads x three steps (1680 interleavings) x 336 mode assignments. Each schedule is executed on fresh OS threads; every Get/Op observation is compared with a per-thread reference model (map thread -> mode, initially RoundHalfEven). An Op observation is a 14-entry probe vector whose value identifies the mode the arithmetic really used. evaluations = schedules executed; states = distinct (family, program counters, model modes).".into(),
+        rule: "All interleavings (depth-first over program counters, no sampling, no reduction) of: F1 two threads x three steps (20 interleavings) x 9 script-template pairs {set-op-get, op-set-op, get-op-get}^2 x 64 mode pairs x 11 core operation kinds (round, div_rounded, mul_rounded, *, /, quantize, Display with precision, and *, /, mul_rounded, div_rounded on operands whose intermediate exceeds 128 bits) plus 8 mode pairs (every mode once on either thread) x 19 operand-form kinds (checked_round, checked_div, the integer-operand forms of / , checked_div and div_rounded in both positions incl. i128, /=, *=, the by-reference forms, Display with width and precision); F0 one thread: every mode x every one of the 30 kinds; F2 three threads x two steps (90 interleavings) x 2 script variants x the same (mode pair, kind) list; F5 ALL script pairs of three steps over the per-thread alphabet {Set(own mode), Set(RoundHalfEven), Op} (729 pairs x 20 interleavings x own-mode pairs: repeated, redundant and reset set_default calls); F3 lifecycle histories (thread dies then another is spawned; parent with non-default mode spawns child; child sets, parent re-observes; double set) x the same (mode pair, kind) list; thorough: F4 three threads x three steps (1680 interleavings) x 336 mode assignments. Each schedule is executed on fresh OS threads; every Get/Op observation is compared with a per-thread reference model (map thread -> mode, initially RoundHalfEven). An Op observation is a 14-entry probe vector whose value identifies the mode the arithmetic really used. evaluations = schedules executed; states = distinct (family, program counters, model modes).".into(),
         exhaustive: true,
         assumptions: vec![
             "scheduling points are whole public API calls (there is no lock or atomic inside the library to intercept); instruction-level races inside one call are out of scope (DESIGN §6)".into(),
